@@ -19,7 +19,7 @@ EXHAUSTIVE = {'quick': False, 'thorough': False}
 RULE = ('seeded random histories of 5..25 operations (thorough: up to 40) over one class with two Int columns on a FILE-backed '
         'sqlite database (timeout 0): create/get/select/count/read/assign/destroySelf/expire/sync/syncUpdate/drop-reference/cull on the parent '
         'connection and on a Transaction (connection=trans and trans.Cls access), commit, commit(close=True), rollback, begin, use after '
-        'finish; every history has at least two commit/rollback points; cache=True/False, cull frequency 100/2..6; the class is eager or lazyUpdate (35%: assignments queued on the instance, on either side, also while the other side changes or deletes the row; commit/rollback with assignments queued) and column b is UNIQUE or not (30%: creates, assignments and syncUpdates the database refuses, inside the transaction after earlier work and on the parent connection); one third of the histories '
+        'finish; every history has at least two commit/rollback points; cache=True/False, cull frequency 100/2..6; the class is eager or lazyUpdate, caches attribute values or not (cacheValues=False 25%: every read is a query) (35% lazy: assignments queued on the instance, on either side, also while the other side changes or deletes the row; commit/rollback with assignments queued) and column b is UNIQUE or not (30%: creates, assignments and syncUpdates the database refuses, inside the transaction after earlier work and on the parent connection); one third of the histories '
         'start from a motif (the witnesses of the findings and near misses of them; parent-side instances with queued assignments at commit; refused statements in the middle of a transaction); half of them end with a sweep that reads every held '
         'instance and selects on both sides.  Non-trivial = at least one commit or rollback happened while the transaction held uncommitted '
         'changes and a parent-side instance was held; distinct = distinct (configuration, operation list).')
@@ -44,8 +44,8 @@ TRUSTED_BASE = [
     'raw SQL through trans.query(), deleteMany and other connection-level writes are outside the operation set',
     'a read of a cached attribute is taken to return the cached value (the oracle reads __dict__ after every step instead of calling the '
     'getter, because a getter call on an expired instance reloads it and would change the history); explicit read operations are checked too',
-    'ConnWrapper method access (trans.Cls.get/select) raises AttributeError on Python >= 3.11 (inspect.getargspec is gone): modelled as '
-    'the configuration flag wrapOk observed from the running interpreter',
+    'ConnWrapper method access (trans.Cls.get/select) raises AttributeError on Python >= 3.11 (inspect.getargspec is gone; finding '
+    'connwrapper_method_access_raises): modelled as the configuration flag wrapOk, observed by asking the code at hand to bind a method',
     'the correspondence harness tools/props/c07.py and the cases.v evaluation',
 ]
 
@@ -55,16 +55,17 @@ _classes = {}
 _counter = [0]
 
 
-def row_class(lazy=False, uniq=False):
-    """the fixture class: two nullable Int columns; options of the case: lazyUpdate, UNIQUE on column b"""
-    key = (bool(lazy), bool(uniq))
+def row_class(lazy=False, uniq=False, nocache=False):
+    """the fixture class: two nullable Int columns; options of the case: lazyUpdate, UNIQUE on column b, cacheValues = False"""
+    key = (bool(lazy), bool(uniq), bool(nocache))
     if key not in _classes:
         from sqlobject import SQLObject, IntCol
 
         class sqlmeta:
             table = TABLE
             lazyUpdate = key[0]
-        name = 'VerifC07Row' + ('L' if key[0] else '') + ('U' if key[1] else '')
+            cacheValues = not key[2]
+        name = 'VerifC07Row' + ('L' if key[0] else '') + ('U' if key[1] else '') + ('N' if key[2] else '')
         _classes[key] = type(name, (SQLObject,), {'sqlmeta': sqlmeta, 'a': IntCol(default=None),
                                                   'b': IntCol(default=None, unique=key[1])})
     return _classes[key]
@@ -116,9 +117,18 @@ UNIQ_MOTIFS = [
 ]
 
 
+# ... for a class with cacheValues = False: expire() still has to take the instance out of the cache and to drop the queue
+NOCACHE_MOTIFS = [
+    [['create', 'P', False, 1, 1], ['get', 'T', False, 1], ['destroy', 1], ['commit', False], ['get', 'P', False, 1], ['read', 0, 0]],
+    [['create', 'T', False, 1, 1], ['read', 0, 0], ['rollback'], ['begin'], ['get', 'T', False, 1], ['read', 0, 0]],
+    [['create', 'P', False, 1, 1], ['get', 'T', False, 1], ['set', 1, 0, 5], ['read', 1, 0], ['rollback'], ['begin'], ['syncupdate', 1], ['commit', False], ['read', 0, 0]],
+    [['create', 'P', False, 1, 1], ['get', 'T', False, 1], ['set', 1, 0, 5], ['syncupdate', 1], ['read', 1, 0], ['read', 0, 0], ['commit', False], ['read', 0, 0], ['set', 0, 1, 3], ['read', 0, 1]],
+]
+
+
 def gen_history(rng, maxlen=25, minlen=5):
     cfg = {'cache': rng.random() < 0.55, 'freq': rng.choice([100, 100, 2, 3, 4, 6]), 'frac': rng.choice([2, 2, 3]),
-           'lazy': rng.random() < 0.35, 'uniq': rng.random() < 0.3}
+           'lazy': rng.random() < 0.35, 'uniq': rng.random() < 0.3, 'nocache': rng.random() < 0.25}
     n = rng.randint(minlen, maxlen)
     ops, sides = [], []           # sides[h] = side of slot h as far as the generator knows
     nrows = [0]
@@ -153,7 +163,9 @@ def gen_history(rng, maxlen=25, minlen=5):
 
     if rng.random() < 0.34:
         pool = MOTIFS
-        if cfg['lazy'] and rng.random() < 0.6:
+        if cfg['nocache'] and rng.random() < 0.6:
+            pool = NOCACHE_MOTIFS
+        elif cfg['lazy'] and rng.random() < 0.6:
             pool = LAZY_MOTIFS
         elif cfg['uniq'] and rng.random() < 0.6:
             pool = UNIQ_MOTIFS
@@ -221,6 +233,9 @@ def corpus():
             out.append({'cfg': {'cache': cache, 'freq': 100, 'frac': 2}, 'ops': [list(o) for o in m]})
         for m in MOTIFS + LAZY_MOTIFS:
             out.append({'cfg': {'cache': cache, 'freq': 100, 'frac': 2, 'lazy': True, 'uniq': False}, 'ops': [list(o) for o in m]})
+        for m in NOCACHE_MOTIFS + MOTIFS[:6]:
+            for lz in (False, True):
+                out.append({'cfg': {'cache': cache, 'freq': 100, 'frac': 2, 'lazy': lz, 'uniq': False, 'nocache': True}, 'ops': [list(o) for o in m]})
         for m in UNIQ_MOTIFS:
             for lz in (False, True):
                 out.append({'cfg': {'cache': cache, 'freq': 100, 'frac': 2, 'lazy': lz, 'uniq': True}, 'ops': [list(o) for o in m]})
@@ -255,6 +270,9 @@ def abstract_sql(q, side):
     m = re.match(r'SELECT a, b FROM %s WHERE \(\(%s\.id\) = \((-?\d+)\)\)$' % (TABLE, TABLE), q)
     if m:
         return ['selectone', side, int(m.group(1))]
+    m = re.match(r'SELECT (a|b) FROM %s WHERE \(\(%s\.id\) = \((-?\d+)\)\)$' % (TABLE, TABLE), q)
+    if m:
+        return ['selectcol', side, int(m.group(2)), COLS.index(m.group(1))]
     if re.match(r'SELECT COUNT\(\*\) FROM %s' % TABLE, q):
         return ['count', side]
     if re.match(r'SELECT %s\.id, %s\.a, %s\.b FROM %s WHERE' % (TABLE, TABLE, TABLE, TABLE), q):
@@ -271,7 +289,7 @@ def run_history(case, workdir):
     import sqlite3
     from sqlobject.sqlite.sqliteconnection import SQLiteConnection
     cfg = case['cfg']
-    cls = row_class(cfg.get('lazy'), cfg.get('uniq'))
+    cls = row_class(cfg.get('lazy'), cfg.get('uniq'), cfg.get('nocache'))
     fn = os.path.join(workdir, 't.db')
     conn = SQLiteConnection(fn, timeout=0, cache=bool(cfg['cache']))
     conn.cache.kw.update(cullFrequency=cfg['freq'], cullFraction=cfg['frac'])
@@ -290,6 +308,14 @@ def run_history(case, workdir):
     conn._executeRetry = wrapped
     slots, out = [], []
     wrap_name = cls.__name__
+    # can the code at hand bind a class METHOD to a connection (conn.Cls.get / trans.Cls.select)?  ConnWrapper.__getattr__ asks
+    # inspect for the signature of the method; asked of the code, not of the interpreter
+    from sqlobject.dbconnection import ConnWrapper
+    try:
+        ConnWrapper(cls, conn).get
+        wrap_ok = True
+    except AttributeError:
+        wrap_ok = False
 
     def token(o):
         for i, s in enumerate(slots):
@@ -447,7 +473,7 @@ def run_history(case, workdir):
             conn.close()
         except Exception:  # noqa
             pass
-    return {'wrap': hasattr(inspect, 'getargspec'), 'steps': out}
+    return {'wrap': wrap_ok, 'steps': out}
 
 
 def run_impl(cases):
@@ -546,6 +572,8 @@ def cstmt(s):
         return '(SDelete %s %s)' % (cside(s[1]), z(s[2]))
     if t == 'selectone':
         return '(SSelectOne %s %s)' % (cside(s[1]), z(s[2]))
+    if t == 'selectcol':
+        return '(SSelectCol %s %s %d%%nat)' % (cside(s[1]), z(s[2]), s[3])
     if t == 'select':
         return '(SSelect %s)' % cside(s[1])
     if t == 'count':
@@ -581,8 +609,8 @@ def cobs(o):
 
 
 def ccfg(cfg, wrap):
-    return '{| doCache := %s; cullFreq := %d; cullFrac := %d; wrapOk := %s; lazy := %s; uniq := %s |}' % (
-        cb(cfg['cache']), cfg['freq'], cfg['frac'], cb(wrap), cb(cfg.get('lazy')), cb(cfg.get('uniq')))
+    return '{| doCache := %s; cullFreq := %d; cullFrac := %d; wrapOk := %s; lazy := %s; uniq := %s; cacheVals := %s |}' % (
+        cb(cfg['cache']), cfg['freq'], cfg['frac'], cb(wrap), cb(cfg.get('lazy')), cb(cfg.get('uniq')), cb(not cfg.get('nocache')))
 
 
 def coq_case(case, obs):
@@ -616,8 +644,13 @@ def cached(v):
     return {c: x for c, x in cached_all(v).items() if c not in q}
 
 
+NOCACHE = [False]      # the class of the case under judgement has cacheValues = False: nothing reads the attributes
+
+
 def fresh(v, rows):
     """would every attribute read on this instance show the table?  (cached value = the row's; nothing cached for a missing row)"""
+    if NOCACHE[0]:
+        return True
     r = rows.get(v[1])
     cv = cached(v)
     if r is None:
@@ -656,6 +689,7 @@ def oracle(case, obs):
 def failures(case, obs):
     steps = obs['steps']
     before = INITIAL
+    NOCACHE[0] = bool(case['cfg'].get('nocache'))
     created_in_tx = []          # ids created through the transaction since its last commit / rollback
     for k, (op, cur) in enumerate(zip(case['ops'], steps)):
         f = judge(k, op, before, cur, created_in_tx, case.get('cfg'))
@@ -735,6 +769,11 @@ def judge(k, op, before, cur, created_in_tx, cfg=None):
                             slot=h, expected=v0, actual=v1)
         if cur['caches'][0] != before['caches'][0]:
             return fail(k, op, "the parent's cache changed through a transaction-side operation", kind='visible_before_commit')
+    # ---- transaction-bound / connection-bound class access works: trans.Cls.get(id), conn.Cls.select() are the documented way
+    #      to use a class with a connection other than its own
+    if t in ('get', 'select') and op[2] and out == ['exc', 'EAttribute']:
+        return fail(k, op, 'method access through a connection-bound class (conn.Cls.get / trans.Cls.select) raises AttributeError',
+                    kind='wrapper_access')
     # ---- every parent-side access to the database shows the committed table
     if side == 'P':
         if t == 'select' and not op[2] and out[0] == 'ret':
@@ -754,7 +793,18 @@ def judge(k, op, before, cur, created_in_tx, cfg=None):
                 return fail(k, op, 'parent-side get raises not-found for a committed row', kind='parent_read')
             if out[0] == 'ret' and out[1][2] is None and op[3] not in rows1 and not was_cached(before, 'P', op[3]):
                 return fail(k, op, 'parent-side get returns a row that is not committed', kind='parent_read')
-    if side == 'P' and t == 'read':
+    if cfg.get('nocache') and t == 'read' and side in ('P', 'T'):
+        # cacheValues = False: every read is a query of the instance's own connection
+        v0 = before['slots'][op[1]]
+        r = view_rows(before, side).get(v0[1])
+        if side == 'T' and before['tobs']:
+            want = ['exc', 'EAssertion']
+        else:
+            want = ['exc', 'EAssertion'] if (r is None or v0[4]) else ['ret', ['val', r[op[2]]]]
+        if out != want:
+            return fail(k, op, 'a read of a class without cached values is not the value in the database as its connection sees it',
+                        kind='parent_read' if side == 'P' else 'txn_read', expected=want, actual=out)
+    elif side == 'P' and t == 'read':
         v0 = before['slots'][op[1]]
         if op[2] not in cached_all(v0):          # a reload
             r = rows1.get(v0[1])
@@ -783,6 +833,13 @@ def judge(k, op, before, cur, created_in_tx, cfg=None):
                         expected=want, actual=cur['committed'])
         if out[0] == 'exc':
             return fail(k, op, 'commit raised %s after the database commit' % out[1], kind='commit_raised', exc=out[1])
+        if cfg.get('cache'):
+            # a row deleted in the committed transaction: the parent's cache hands out no instance of it any more
+            # (with cache=False, CacheFactory.expire() leaves the weak entry: an instance whose reads raise not-found)
+            left = [i for i in before['deleted'] if i not in rows1 and was_cached(before, 'P', i) and was_cached(cur, 'P', i)]
+            if left:
+                return fail(k, op, "the parent's cache still hands out an instance of a row the committed transaction deleted",
+                            kind='cached_after_commit', ids=left)
         for h, v0 in enumerate(before['slots']):
             v1 = cur['slots'][h]
             if v0 is None or v0[0] != 'P' or v1 is None or v0[4]:
@@ -801,6 +858,16 @@ def judge(k, op, before, cur, created_in_tx, cfg=None):
         gone = [i for i in created_in_tx if i in rows1]
         if gone:
             return fail(k, op, 'a row created in the rolled-back transaction exists', kind='rollback_db', ids=gone)
+        if cfg.get('cache'):
+            left = [i for i in created_in_tx if was_cached(before, 'T', i) and was_cached(cur, 'T', i)]
+            if left:
+                return fail(k, op, "the transaction's cache still hands out an instance of a row created in the rolled-back transaction",
+                            kind='cached_after_rollback', ids=left)
+        for h, v1 in enumerate(cur['slots']):
+            v0 = before['slots'][h]
+            if v1 is not None and v1[0] == 'T' and not v1[4] and v0 is not None and v0[5] and queued(v1):
+                return fail(k, op, 'an assignment queued in the rolled-back transaction survives the rollback (syncUpdate would write it)',
+                            kind='queue_after_rollback', slot=h, instance=v1)
         for h, v1 in enumerate(cur['slots']):
             if v1 is None or v1[0] != 'T' or v1[4]:
                 continue
@@ -814,7 +881,7 @@ def judge(k, op, before, cur, created_in_tx, cfg=None):
         if t == 'get':
             needs = op[2] or not was_cached(before, 'T', op[3])
         if t == 'read':
-            needs = op[2] not in cached_all(before['slots'][op[1]])
+            needs = bool(cfg.get('nocache')) or op[2] not in cached_all(before['slots'][op[1]])
         if needs and out != ['exc', 'EAssertion']:
             return fail(k, op, 'a finished transaction accepted an operation that needs the database', kind='obsolete_used', actual=out)
         if cur['committed'] != before['committed'] or cur['pending'] is not None:
@@ -838,6 +905,8 @@ def classify(case, obs, f):
         return None
     before = obs['steps'][k - 1] if k > 0 else INITIAL
     kind = f.get('kind')
+    if kind == 'wrapper_access':
+        return 'connwrapper_method_access_raises'
     if kind in ('stale_after_commit', 'commit_raised'):
         own, walked = 0, set(before['caches'][1][0]) | set(before['caches'][1][1]) | set(before['deleted'])
     elif kind in ('stale_after_rollback', 'rollback_raised'):
@@ -916,7 +985,7 @@ def key(case):
 def distribution(cases, obs):
     d = {'ops': {}, 'outcomes': {}, 'cache': {'True': 0, 'False': 0}, 'commit_with_changes': 0, 'rollback_with_changes': 0,
          'parent_write_locked': 0, 'use_after_finish': 0, 'lengths': {}, 'auto_cull_configs': 0,
-         'lazy_configs': 0, 'uniq_configs': 0, 'commit_with_dirty_parent_instance': 0, 'commit_with_dirty_parent_instance_of_changed_row': 0,
+         'lazy_configs': 0, 'uniq_configs': 0, 'nocache_configs': 0, 'nocache_commit_deleting_a_cached_parent_row': 0, 'commit_with_dirty_parent_instance': 0, 'commit_with_dirty_parent_instance_of_changed_row': 0,
          'refused_in_transaction_with_earlier_work': 0, 'refused_on_parent': 0, 'sync_updates_written': 0}
     for c, o in zip(cases, obs):
         if not isinstance(o, dict) or 'steps' not in o:
@@ -928,6 +997,8 @@ def distribution(cases, obs):
             d['lazy_configs'] += 1
         if c['cfg'].get('uniq'):
             d['uniq_configs'] += 1
+        if c['cfg'].get('nocache'):
+            d['nocache_configs'] += 1
         L = str(10 * (len(c['ops']) // 10))
         d['lengths'][L] = d['lengths'].get(L, 0) + 1
         prev = INITIAL
@@ -938,6 +1009,8 @@ def distribution(cases, obs):
             d['outcomes'][oc] = d['outcomes'].get(oc, 0) + 1
             if op[0] == 'commit' and prev['pending'] is not None:
                 d['commit_with_changes'] += 1
+            if op[0] == 'commit' and not prev['tobs'] and c['cfg'].get('nocache') and any(was_cached(prev, 'P', i) for i in prev['deleted']):
+                d['nocache_commit_deleting_a_cached_parent_row'] += 1
             if op[0] == 'commit' and not prev['tobs']:
                 dirty = [v for v in prev['slots'] if v is not None and v[0] == 'P' and not v[4] and queued(v)]
                 if dirty:
